@@ -130,7 +130,7 @@ def o14_2_filter_index(mir, tier):
             label = 'after notify_new_data_block(offset) the number of generated filters is not max(previous, offset >> 11)'
             ex.record_formula(label, pc, Not(post))
             m = ex.model(Not(post))
-            if m is not None: res.violations.append({'label': label, 'offset': mval(m, off), 'filters': n, 'replay': ['table_filter_sweep']})
+            if m is not None: res.violations.append({'label': label, 'offset': mval(m, off), 'filters': n, 'replay': ['filter_block_offsets', str(mval(m, off))]})
             res.cases['builder have=%d -> %d' % (have, n)] = 1
         ex.top(nb, [Ref('$fb'), off], {'$state': {'generated': 0}, '$fb': fb}, pre, k)
         res.absorb(ex)
@@ -154,7 +154,7 @@ def o14_2_filter_index(mir, tier):
             post = Or(UGE(idx, bv(4)), BoolVal(False)); label = 'the reader skips the filter although the offset maps to an existing one'
         ex.record_formula(label, pc, Not(post))
         m = ex.model(Not(post))
-        if m is not None: res.violations.append({'label': label, 'offset': mval(m, off), 'replay': ['table_filter_sweep']})
+        if m is not None: res.violations.append({'label': label, 'offset': mval(m, off), 'replay': ['filter_block_offsets', str(mval(m, off))]})
         res.cases['reader asked %s' % ([a['id'] for a in asked],)] = 1
     try:
         ex.top(km, [Ref('$fr'), off, {'len': BitVec('klen', 64), 'kind': 'key'}], {'$state': {'asked': []}, '$fr': fr}, [ULT(off, bv(6 * 2048))], k2)
@@ -170,6 +170,13 @@ def o14_2_filter_index(mir, tier):
     res.wall_s = time.time() - t0
     if res.violations: res.status = 'violation'
     return res
+
+
+def o14_2_confirm(v, out):
+    """Native: filter block built for data blocks at 0, the model's offset and beyond; every key asked with its block's offset."""
+    if out.get('_rc') != 0: return (False, 'native run failed: %s' % out.get('_stderr', '')[-300:])
+    if out.get('answers') == 'unreadable': return (True, 'native: the filter block written for a block at offset %s cannot be read back' % v.get('offset'))
+    return (out.get('rejected', '0') != '0', 'native: the filter block rejects %s of %s stored keys with a data block at offset %s (first: %s)' % (out.get('rejected'), out.get('answers'), v.get('offset'), out.get('first_rejected')))
 
 
 def o14_4_builder_new(mir, tier):
